@@ -27,7 +27,7 @@ RULE = (
 ASSUMPTIONS = [
     "sample_count >= 1, sample_rate > 0, channel_count 1..8 (a header announcing zero samples is not generated)",
     "sample_coding is written as 'pcm', 'ulaw' or 'alaw' with sample_n_bytes always present; sample_byte_format always present for PCM and left out of a third of the mu-law / A-law headers (NIST requires it only when sample_n_bytes > 1)",
-    "header padding is blanks; optional fields are -i/-r/-sN fields with unique names, no comment lines",
+    "header padding after end_head is blanks, newlines or NUL bytes (nothing after end_head is part of the header); optional fields are -i/-r/-sN fields with unique names, no comment lines",
     "a requested dtype on PCM data means stored.astype(dtype); on G.711 data a 1-byte dtype means the raw codes, "
     "any wider dtype means expanded.astype(dtype)",
     "truncated data section: exactly the complete frames present are expected (a dangling partial frame is dropped), "
@@ -37,7 +37,7 @@ ASSUMPTIONS = [
 
 READ = 16384
 DTYPES = [None, "int16", "int32", "float64", "uint8", "int8"]
-ACCESS = ["path", "path_forced", "bytesio", "file", "tmpfile", "unnamed"]
+ACCESS = ["path", "path_forced", "bytesio", "file", "tmpfile", "unnamed", "barename"]
 RATES = [8000, 16000, 20000, 44100, 1]
 
 _selftested = []
@@ -103,6 +103,7 @@ def file_bytes(case):
     data = sw.write_sphere(
         frames, case["coding"], case["rate"], h["k"], h["layout"], h["extras"], long_extra=h.get("long", 0),
         omit_byte_format=h.get("no_byte_format", False),
+        pad={"nul": b"\0", "newline": b"\n"}.get(h.get("pad"), b" "),
     )
     hdr_size = len(data) - frames.size * (2 if case["coding"].startswith("pcm") else 1)
     if case["coding"].startswith("pcm") and data[hdr_size : hdr_size + 4] == b"ajkg":
@@ -153,6 +154,14 @@ def read_with(access, data, dtype, stem="utt"):
                 elif access == "file":
                     with open(path, "rb") as f:
                         out = read_signal(f, dtype=np_dtype, force_as="sph")
+                elif access == "barename":
+                    # the file name alone, relative to the current directory
+                    old = os.getcwd()
+                    os.chdir(td)
+                    try:
+                        out = read_signal(name, dtype=np_dtype)
+                    finally:
+                        os.chdir(old)
                 else:
                     raise HarnessError("unknown access %r" % (access,))
     return out, list(wlist)
@@ -188,6 +197,8 @@ def _frame_labels(case, data_bytes):
     ]
     if case["hdr"].get("long", 0):
         labels.append("hdr-long-field")
+    if case["hdr"].get("pad", "blank") != "blank":
+        labels.append("hdr-pad=" + case["hdr"]["pad"])
     if case["hdr"].get("no_byte_format") and not case["coding"].startswith("pcm"):
         labels.append("hdr-without-byte-format")
     if nondiv:
@@ -315,6 +326,8 @@ def _hdr():
             "long": st.sampled_from([0, 0, 0, 700, 1500]),
             # 1-byte codings may leave out sample_byte_format (required only when sample_n_bytes > 1)
             "no_byte_format": st.sampled_from([False, False, True]),
+            # what fills the header block after end_head: blanks (NIST tools), newlines, or NUL bytes (other writers)
+            "pad": st.sampled_from(["blank", "blank", "newline", "nul"]),
         }
     )
 
@@ -387,12 +400,12 @@ def clauses(tier):
         Clause(
             "roundtrip", check_roundtrip,
             "well-formed file read back; non-trivial = data section > 16384 bytes and frame size does not divide 16384",
-            lambda: _file_cases(False), quick=1200, thorough=24000,
+            lambda: _file_cases(False), quick=3000, thorough=48000,
         ),
         Clause(
             "truncated", check_truncated,
             "data section cut at a drawn byte (tail, read boundary, anywhere, almost nothing); every case is non-trivial",
-            lambda: _file_cases(True), quick=800, thorough=16000,
+            lambda: _file_cases(True), quick=2000, thorough=32000,
          fuzz_runs=2500),
         Clause(
             "g711_tables", check_g711_code,
@@ -402,6 +415,6 @@ def clauses(tier):
         Clause(
             "bad_header", check_bad_header,
             "wrong magic (byte flips in the first 7 bytes, look-alike words), file shorter than 1024 bytes, declared header size < 1024",
-            _bad_header_cases, quick=400, thorough=8000, shards=4,
+            _bad_header_cases, quick=800, thorough=12000, shards=4,
         ),
     ]
